@@ -142,6 +142,19 @@ def opsTrainers (a : Array String) : Option String :=
     | 8 => some (perKT (weightIntF tinyT aff s))
     | 9 => some (perK (weightIntFT tinyT aff s))
     | _ => none
+  | "cacgmmestep" =>
+    -- cacgmmestep K N D eps <w K*N> <e K*D> <U K*D*D complex> <z N*D complex>; K >= 1.  Output: gamma K*N, q K*N
+    let K := tokNat a 1 - 1; let N := tokNat a 2; let D := tokNat a 3
+    let o1 := 5; let o2 := o1 + (K+1)*N; let o3 := o2 + (K+1)*D; let o4 := o3 + 2*(K+1)*D*D
+    let wt : Tab2 (K+1) N Float := tab2 fun k n => fl a o1 (k.val * N + n.val)
+    let et : Tab2 (K+1) D Float := tab2 fun k i => fl a o2 (k.val * D + i.val)
+    let ut : Tab3 (K+1) D D CF := tab3 fun k d i => cfl a o3 ((k.val * D + d.val) * D + i.val)
+    let zt : Tab2 N D CF := tab2 fun n d => cfl a o4 (n.val * D + d.val)
+    let m : Fin (K+1) → Eig Float CF D := fun k => ⟨at2 et k, at3 ut k⟩
+    let r := cacgmmEStep tinyT (tokFloat a 4) (at2 wt) m (at2 zt)
+    let g : Tab2 (K+1) N Float := tab2 r.1
+    some (fmtFloats ((List.finRange (K+1)).flatMap fun k => (List.finRange N).map (at2 g k)) ++ " " ++
+          fmtFloats ((List.finRange (K+1)).flatMap fun k => (List.finRange N).map (r.2 k)))
   | "emtrace" =>
     -- emtrace n: call trace of the iteration skeleton (1 = M-step, 2 = E-step)
     let r := emFit (Γ := List Nat) (Θ := List Nat) (fun g => g ++ [1]) (fun m => m ++ [2]) (tokNat a 1) []
